@@ -637,6 +637,8 @@ namespace awkward {
     }
   }
 
+  // 'stride' is half of the byte stride between two complex items; the imaginary
+  // part sits right behind the real part, whatever the stride is
   template <typename T>
   void tostring_as_complex(kernel::lib ptr_lib,
                            std::stringstream& out,
@@ -649,7 +651,7 @@ namespace awkward {
         T* ptr2 = reinterpret_cast<T*>(
             reinterpret_cast<ssize_t>(ptr) + stride*((ssize_t)i * 2));
         T* ptr3 = reinterpret_cast<T*>(
-            reinterpret_cast<ssize_t>(ptr) + stride*((ssize_t)i * 2 + 1));
+            reinterpret_cast<ssize_t>(ptr) + stride*((ssize_t)i * 2) + (ssize_t)sizeof(T));
         if (i != 0) {
           out << " ";
         }
@@ -664,7 +666,7 @@ namespace awkward {
         T* ptr2 = reinterpret_cast<T*>(
             reinterpret_cast<ssize_t>(ptr) + stride*((ssize_t)i) * 2);
         T* ptr3 = reinterpret_cast<T*>(
-            reinterpret_cast<ssize_t>(ptr) + stride*((ssize_t)i * 2 + 1));
+            reinterpret_cast<ssize_t>(ptr) + stride*((ssize_t)i * 2) + (ssize_t)sizeof(T));
         if (i != 0) {
           out << " ";
         }
@@ -678,7 +680,7 @@ namespace awkward {
         T* ptr2 = reinterpret_cast<T*>(
             reinterpret_cast<ssize_t>(ptr) + stride*((ssize_t)i) * 2);
         T* ptr3 = reinterpret_cast<T*>(
-            reinterpret_cast<ssize_t>(ptr) + stride*((ssize_t)i * 2 + 1));
+            reinterpret_cast<ssize_t>(ptr) + stride*((ssize_t)i * 2) + (ssize_t)sizeof(T));
         if (i != length - 5) {
           out << " ";
         }
